@@ -405,7 +405,7 @@ func (s *zzSplit) NextBytes() ([]byte, error) {
 }
 
 // zzChunks makes n chunks. size pattern: 0 = all 1 byte; 1 = 1,2,3,1,2,3,..; 2 = all 2 bytes, last 1.
-// fill: 0 = distinct concrete bytes; 1 = all bytes equal (maximal de-duplication); 2 = symbolic bytes, chunks
+// fill: 0 = distinct concrete bytes; 1 = two byte values only (many identical chunks: de-duplication); 2 = symbolic bytes, chunks
 // assumed pairwise different; 3 = symbolic bytes, unconstrained (the engine forks over which chunks coincide).
 func zzChunks(tag string, n, sizePat, fill int, base int) [][]byte {
 	var out [][]byte
@@ -428,9 +428,10 @@ func zzChunks(tag string, n, sizePat, fill int, base int) [][]byte {
 				c[j] = byte(base + 7*i + 3*j + 1)
 			}
 		case 1:
+			// two byte values only, switching every second chunk: adjacent and distant chunks coincide
 			c = make([]byte, sz)
 			for j := range c {
-				c[j] = 0x5a
+				c[j] = 0x5a + byte((i/2)%2)
 			}
 		default:
 			c = verifrt.NondetBytes(tag, sz)
